@@ -3,6 +3,13 @@
 #include "../core/gen.hpp"
 #include <algorithm>
 #include <functional>
+#include <dirent.h>
+#include <fstream>
+#include <sstream>
+
+#ifndef SIM_REPO_ROOT
+#define SIM_REPO_ROOT "/repo"
+#endif
 
 using namespace sim;
 
@@ -15,6 +22,38 @@ static const FormatApi& api_of(const std::string& f) {
 static const char* const formats[] = {"json", "json", "csv", "cbor", "msgpack", "ubjson", "bson"};
 
 struct Exec { std::string mode; Delivery d; };
+
+// ---------------------------------------------------------------- inputs from the repository's own offline corpora
+struct FileSeed { std::string name, bytes; };
+static std::vector<std::string> list_dir(const std::string& dir) {
+    std::vector<std::string> r;
+    if (DIR* d = opendir(dir.c_str())) { while (dirent* e = readdir(d)) { std::string n = e->d_name; if (n != "." && n != "..") r.push_back(n); } closedir(d); }
+    std::sort(r.begin(), r.end());
+    return r;
+}
+static const std::vector<FileSeed>& file_seeds(const std::string& fmt) {
+    static std::map<std::string, std::vector<FileSeed>> all;
+    static bool loaded = false;
+    if (!loaded) {
+        loaded = true;
+        const std::string root = std::string(SIM_REPO_ROOT) + "/test";
+        auto add = [&](const std::string& f, const std::string& dir, const std::string& name) {
+            std::ifstream in(dir + "/" + name, std::ios::binary); if (!in) return;
+            std::stringstream ss; ss << in.rdbuf(); std::string b = ss.str();
+            if (b.empty() || b.size() > 8192) return;
+            all[f].push_back(FileSeed{name, b});
+        };
+        for (auto& n : list_dir(root + "/corelib/input/JSONTestSuite")) add("json", root + "/corelib/input/JSONTestSuite", n);
+        for (auto& n : list_dir(root + "/corelib/input/JSON_checker")) add("json", root + "/corelib/input/JSON_checker", n);
+        for (auto& n : list_dir(root + "/corelib/input")) if (n.size() > 5 && n.substr(n.size() - 5) == ".json") add("json", root + "/corelib/input", n);
+        for (auto& n : list_dir(root + "/csv/input")) if (n.find(".csv") != std::string::npos || n.find(".txt") != std::string::npos) add("csv", root + "/csv/input", n);
+        for (auto& n : list_dir(root + "/bson/input")) if (n.find(".bson") != std::string::npos) add("bson", root + "/bson/input", n);
+        for (auto& n : list_dir(root + "/clusterfuzz/input")) {
+            for (const char* f : {"json", "csv", "cbor", "msgpack", "ubjson", "bson"}) if (n.find(std::string("fuzz_") + f) != std::string::npos || (std::string(f) == "json" && n.find("fuzz_parse") != std::string::npos)) add(f, root + "/clusterfuzz/input", n);
+        }
+    }
+    return all[fmt];
+}
 
 // ---------------------------------------------------------------- generation
 
@@ -74,7 +113,10 @@ MVal generate(const std::string& profile, uint64_t seed, uint64_t idx) {
     }
     // input: hand-written seed, or generated document rendered in the format
     auto seeds = api.seeds();
-    if (r.chance(2, 5)) plan.set("seed_ix", MVal::uinteger(r.below(seeds.size())));
+    const auto& fs = file_seeds(fmt);
+    unsigned src = (unsigned)r.below(20);
+    if (src < 5 && !fs.empty()) { const FileSeed& f = fs[r.below(fs.size())]; plan.set("input_hex", MVal::str(to_hex(f.bytes))); plan.set("src", MVal::str(f.name)); }
+    else if (src < 11) plan.set("seed_ix", MVal::uinteger(r.below(seeds.size())));
     else {
         GenOpts go; go.max_depth = 1 + (int)r.below(4); go.max_width = 1 + (int)r.below(5); go.big = r.chance(1, 10); go.root_container = !r.chance(1, 6);
         plan.set("doc", gen_value(r, go));
@@ -219,6 +261,7 @@ static const std::vector<Claim>& claims() {
 struct Run {
     MVal& plan; Stats& st; Result res; const FormatApi& api; std::string fmt, check; std::string B; MVal opts; Ctx cx;
     uint64_t exec_no = 0, only_exec = 0; uint64_t h = 1469598103934665603ULL;
+    uint64_t produced_hint = 0;   // events the reader reports for this input (also before an error): the data actually produced
     Run(MVal& p, Stats& s) : plan(p), st(s), api(api_of(p.gets("format"))), fmt(p.gets("format")), check(p.gets("check", "c03")) {}
 
     bool want() { ++exec_no; if (only_exec && exec_no != only_exec) return false; progress(exec_no); return true; }
@@ -239,6 +282,11 @@ struct Run {
         for (const std::string* s : {&o.events, &o.error, &o.violation, &o.vdetail}) if (s->capacity() > 15) { ++own; ownb += s->capacity() + 1; }
         uint64_t blocks1 = ledger::live_blocks(), bytes1 = ledger::live_bytes();
         if (blocks1 != blocks0 + own && o.violation.empty()) { o.violation = "leak"; o.vdetail = std::to_string((long long)blocks1 - (long long)blocks0 - (long long)own) + " block(s) / " + std::to_string((long long)bytes1 - (long long)bytes0 - (long long)ownb) + " bytes still allocated after the decoder was destroyed"; }
+        if (o.produced < produced_hint) o.produced = produced_hint;
+        if (o.violation.empty() && o.meter_live > Meter::allowed(o.meter_at, d.chunk, o.produced)) {
+            o.violation = "memory-exceeds-delivery";
+            o.vdetail = "live bytes " + std::to_string(o.meter_live) + " after only " + std::to_string(o.meter_at) + " bytes delivered (chunk " + std::to_string(d.chunk) + ", " + std::to_string(o.produced) + " items produced in total): allowed 256KiB + 1024*(delivered+chunk) + 256*items";
+        }
         st.inc("executions"); st.inc("exec." + mode);
         st.inc("io_events", o.reads);
         h = fnv1a(o.key(), h);
@@ -309,6 +357,14 @@ static Result exec_c03_c05(MVal& plan, Stats& st) {
 
     // ---- reference outcomes (contiguous delivery), each computed twice: the harness itself must be deterministic
     std::map<std::string, Outcome> ref;
+    { // Inputs that expand enormously (UBJSON zero-width typed containers: "[$Z#l<14 million>" is 9 bytes and 14 million nulls,
+      // legitimately, up to max_items per container and without any total bound) are data actually produced, not a claim;
+      // they would make every execution take seconds and gigabytes, so the probe stops after 20 000 events and such plans
+      // are skipped and counted.
+      Ctx pc = R.cx; pc.cap = 20000;
+      Outcome probe = R.api.run("reader", contig, pc); R.produced_hint = probe.produced;
+      if (probe.produced > 20000) { st.inc("plans_skipped_amplifying_input"); R.res.cls = "excluded"; return R.res; }
+      if (probe.produced > 4000) { st.inc("plans_amplifying_inputs_reference_only"); dels.clear(); pushes.clear(); failsweep = false; } }
     for (auto& m : modes) {
         if (m == "push" || m.compare(0, 6, "entry.") == 0) continue;
         if (!R.want()) { // still need the reference for comparison when only one execution is replayed
@@ -318,7 +374,8 @@ static Result exec_c03_c05(MVal& plan, Stats& st) {
         Outcome b = R.api.run(m, contig, R.cx);
         if (a.key() != b.key()) { R.res.fail("harness:nondeterministic-reference", R.fmt + "/" + m + ": two contiguous runs differ"); return R.res; }
         R.c05_flags(a, m, contig);
-        if (a.peak > Meter::SLACK + Meter::FACTOR * (L + 1) && R.res.ok) R.fail("memory-exceeds-input", "peak " + std::to_string(a.peak) + " bytes for " + std::to_string(L) + " input bytes (contiguous)", m, contig);
+        if (a.peak > Meter::allowed(L, 1, a.produced) && R.res.ok) R.fail("memory-exceeds-input", "peak " + std::to_string(a.peak) + " bytes for " + std::to_string(L) + " input bytes and " + std::to_string(a.produced) + " items produced (contiguous)", m, contig);
+
         ref[m] = std::move(a);
         if (!R.res.ok) return R.res;
     }
@@ -548,6 +605,8 @@ static Result exec_c10(MVal& plan, Stats& st) {
     }
     for (auto& c : cases) {
         R.B = c.B; R.cx.B = &R.B; R.opts = c.opts; R.cx.opts = &R.opts;
+        { Ctx pc = R.cx; pc.cap = 200000; Outcome probe = R.api.run("reader", Delivery(), pc); R.produced_hint = probe.produced;
+          if (probe.produced > 200000) { st.inc("cases_skipped_amplifying_input"); continue; } }
         for (auto& m : modes) for (auto& d : dels) {
             if (!R.want()) continue;
             Outcome out = R.exec(m, d);
@@ -555,7 +614,7 @@ static Result exec_c10(MVal& plan, Stats& st) {
             bool ok = out.error.empty();
             if (R.res.ok && c.expect == 0 && !ok) R.fail("limit-rejects-within", c.tag + ": input within the limit is refused (" + out.error + ")", m, d);
             if (R.res.ok && c.expect == 1 && ok) R.fail("limit-accepts-beyond", c.tag + ": input beyond the limit is accepted", m, d);
-            if (R.res.ok && out.peak > Meter::SLACK + Meter::FACTOR * (c.B.size() + (d.kind == "contig" ? 0 : d.chunk)))
+            if (R.res.ok && out.peak > Meter::allowed(c.B.size(), d.kind == "contig" ? 0 : d.chunk, out.produced))
                 R.fail("memory-follows-claim", c.tag + ": peak " + std::to_string(out.peak) + " bytes while decoding " + std::to_string(c.B.size()) + " supplied bytes" + (c.exp ? " that claim 2^" + std::to_string(c.exp) : std::string()), m, d);
             if (c.expect >= 0) st.inc("limit_checks"); else { st.inc("claim_checks"); st.inc("faults.claim_and_starve_fired"); }
             st.maxi("peak_bytes_over_input", out.peak);
